@@ -266,5 +266,5 @@ def run(ctx):
     ctx.parallel(_small_worker, [(k, ns) for k in range(ns)])
     ctx.exhaustive["families of <= 2 terms over f g h x, every term and factor order"] = {"complete": True}
     ctx.exhaustive["f:x:z (+ g:x:z) (+ x:z) with the numeric part spelled in every order, every term order"] = {"complete": True}
-    per = 60 if quick else 1500
+    per = 200 if quick else 2500
     ctx.parallel(_mixed_worker, [(k, per, 3 if (quick or k % 2) else 5) for k in range(ns)])
